@@ -116,7 +116,16 @@ func (s *Solver) send(str string) {
 	if s.logf != nil {
 		s.logf.WriteString(str)
 	}
-	io.WriteString(s.in, str)
+	// write from a goroutine: a solver that is busy and not reading must not block the
+	// engine (the read side has the watchdog; a killed solver makes the write fail)
+	in := s.in
+	done := make(chan struct{})
+	go func() { io.WriteString(in, str); close(done) }()
+	select {
+	case <-done:
+	case <-time.After(time.Duration(s.timeoutMs)*time.Millisecond*2 + 10*time.Second):
+		panic(solverHang{})
+	}
 }
 
 type solverHang struct{}
@@ -162,9 +171,23 @@ func (s *Solver) push(c *Term) {
 	sb.WriteString("(push 1)\n(assert ")
 	c.smt(&sb)
 	sb.WriteString(")\n")
-	s.send(sb.String())
-	s.depth++
 	s.stack = append(s.stack, c)
+	func() {
+		defer func() {
+			if r := recover(); r != nil {
+				if _, ok := r.(solverHang); ok {
+					s.stack = s.stack[:len(s.stack)-1]
+					s.restart()
+					s.stack = append(s.stack, c)
+					s.send(sb.String())
+					return
+				}
+				panic(r)
+			}
+		}()
+		s.send(sb.String())
+	}()
+	s.depth++
 }
 
 func (s *Solver) popAll() {
@@ -187,7 +210,6 @@ func (s *Solver) check(extra []*Term, want []*Term) (string, []string) {
 		sb.WriteString(")\n")
 	}
 	sb.WriteString("(check-sat)\n")
-	s.send(sb.String())
 	var res string
 	hung := false
 	func() {
@@ -200,6 +222,7 @@ func (s *Solver) check(extra []*Term, want []*Term) (string, []string) {
 				panic(r)
 			}
 		}()
+		s.send(sb.String())
 		res = s.readLine()
 	}()
 	if hung {
@@ -519,6 +542,7 @@ type Explorer struct {
 	obs       []string
 	divCache  map[[2]*Term][2]*Term
 	mulOrigin map[*Term][2]*Term
+	deadline  time.Time
 
 	KnownNames map[string]bool // region names with status "known"
 
@@ -576,6 +600,10 @@ func (e *Engine) decide(c *Term) bool {
 			x.addPC(tnot(c))
 		}
 		return b
+	}
+	if !x.deadline.IsZero() && time.Now().After(x.deadline) {
+		x.BoundHit = true
+		panic(pathAbort{"time bound of the job reached inside a path"})
 	}
 	x.Decisions++
 	rT, _ := x.S.check([]*Term{c}, nil)
@@ -719,6 +747,7 @@ func (e *Engine) concretize(s *symv) uint64 {
 func (e *Engine) Explore(run func(), b Bounds) {
 	x := e.X
 	x.queue = [][]bool{{}}
+	x.deadline = b.Deadline
 	for len(x.queue) > 0 {
 		if x.Paths >= b.MaxPaths || (!b.Deadline.IsZero() && time.Now().After(b.Deadline)) {
 			x.BoundHit = true
@@ -745,6 +774,12 @@ func (e *Engine) Explore(run func(), b Bounds) {
 					case string:
 						// the interpreter itself gave up (unsupported construct): never a verdict
 						x.Aborted["engine unsupported: "+firstLine(r)]++
+					case error:
+						if strings.Contains(r.Error(), "interp.") {
+							x.Aborted["engine unsupported: "+firstLine(r.Error())]++
+							return
+						}
+						e.report(fmt.Sprintf("PANIC: %v", r), nil)
 					default:
 						msg := fmt.Sprintf("PANIC: %v", r)
 						if tp, ok := r.(targetPanic); ok {
